@@ -1801,6 +1801,10 @@ class Emitter:
             raise ExtractError('method %s of %s not found among instantiated functions' % (mname, ot.base))
         raise ExtractError('no rule for member call %s on %r' % (mname, ot.base))
 
+    @staticmethod
+    def _is_iter_tag(tag):
+        return tag.startswith('it_') or tag.endswith('_it')
+
     def _strip_casts(self, e):
         e = self.strip(e)
         while e['kind'] == 'ImplicitCastExpr' and e['castKind'] in ('NoOp', 'LValueToRValue',
@@ -1875,7 +1879,7 @@ class Emitter:
                 fn = 'bg_%s__%s' % (tag, name)
                 if name in ('index',) and (ot.is_const or obj.get('type', {}).get('qualType', '').startswith('const ')):
                     fn += '_c'
-                if name in ('eq', 'ne', 'lt'):
+                if name in ('eq', 'ne', 'lt') and self._is_iter_tag(tag):
                     call = '%s(%s, %s)' % (fn, self.rv_or_lv(obj, out), self.rv_or_lv(rest[0], out))
                     return self.finish_call(e, call, out, False, False, discard)
                 objp = self.addr(obj, out)
@@ -1894,7 +1898,7 @@ class Emitter:
             if name is None:
                 raise ExtractError('no rule for free operator %s on %r' % (opname, ot.base))
             fn = 'bg_%s__%s' % (ot.info['stl'], name)
-            if name in ('eq', 'ne', 'lt'):
+            if name in ('eq', 'ne', 'lt') and self._is_iter_tag(ot.info['stl']):
                 cargs = [self.rv_or_lv(x, out) for x in args]
             else:
                 cargs = self.call_args(args, out)
